@@ -230,6 +230,9 @@ func (eval Evaluator) Add(op0 *rlwe.Ciphertext, op1 rlwe.Operand, opOut *rlwe.Ci
 			}
 		}
 
+		// The scalar was added at the scale of op0.
+		opOut.Scale = op0.Scale
+
 	case uint64:
 		return eval.Add(op0, new(big.Int).SetUint64(op1), opOut)
 	case int64:
@@ -534,6 +537,9 @@ func (eval Evaluator) Mul(op0 *rlwe.Ciphertext, op1 rlwe.Operand, opOut *rlwe.Ci
 		for i := 0; i < op0.Degree()+1; i++ {
 			ringQ.MulScalarBigint(op0.Value[i], scalar, opOut.Value[i])
 		}
+
+		// A product with an (unscaled) scalar keeps the scale of op0.
+		opOut.Scale = op0.Scale
 
 	case uint64:
 		return eval.Mul(op0, new(big.Int).SetUint64(op1), opOut)
